@@ -30,11 +30,11 @@ type c12Cfg struct {
 
 func CheckC12(l *Lab, verifDir string) int {
 	rep := NewReport("C12", l.Tier, l.Seed, "exploration", verifDir)
-	rep.Rule = "one real gateway process per configuration {host selection roundrobin/unsigned/signed/any} x {host list: one, two, user placeholder, mixed, DNS names} x {SplitUserDomain, NoUsername, user-name template} x {with / without a client.defaults template file}; per process: /connect without cookie, with garbage cookies, after failed callbacks (must redirect to the IdP's authorization endpoint and never return a token), then logged-in sessions of several users (plain, user@domain, unicode, colon) from several client addresses (peer 127.0.0.1/127.0.0.2, X-Forwarded-For chains) requesting listed, unlisted, near-miss (case, trailing dot, port +-1, prefix), template-text, signed-good/expired/wrong-issuer/wrong-key/alg-none query hosts; the returned file is parsed by the lab's own line parser and the token payload decoded: gateway host, target host per policy, claims == (host, user [domain removed iff splitting], requesting address, that session's IdP access token, iss rdpgw); two sessions of the same user from different addresses must get their own claims; under roundrobin/unsigned/any the host and token are replayed over a real tunnel from the same address and must reach that host's listener. after the sessions: visitors that never logged in ask again with the cookie of their first redirect (must not get a file) and all sessions download simultaneously (each file must carry its own session's claims). non-trivial = /connect answered; distinct = configuration x request class x outcome"
+	rep.Rule = "one real gateway process per configuration {host selection roundrobin/unsigned/signed/any} x {host list: one, two, user placeholder, mixed, DNS names, IPv6 literal} x {SplitUserDomain, NoUsername, user-name template} x {with / without a client.defaults template file}; per process: /connect without cookie, with garbage cookies, after failed callbacks (must redirect to the IdP's authorization endpoint and never return a token), then logged-in sessions of several users (plain, user@domain, unicode, colon) from several client addresses (peer 127.0.0.1/127.0.0.2, X-Forwarded-For chains) requesting listed, unlisted, near-miss (case, trailing dot, port +-1, prefix), template-text, signed-good/expired/wrong-issuer/wrong-key/alg-none query hosts; the returned file is parsed by the lab's own line parser and the token payload decoded: gateway host, target host per policy, claims == (host, user [domain removed iff splitting], requesting address, that session's IdP access token, iss rdpgw); two sessions of the same user from different addresses must get their own claims; under roundrobin/unsigned/any the host and token are replayed over a real tunnel from the same address and must reach that host's listener. after the sessions: visitors that never logged in ask again with the cookie of their first redirect (must not get a file) and all sessions download simultaneously (each file must carry its own session's claims). non-trivial = /connect answered; distinct = configuration x request class x outcome"
 	var cfgs []c12Cfg
 	id := 0
 	modes := []string{"roundrobin", "unsigned", "signed", "any"}
-	kinds := []string{"one", "two", "placeholder", "mixed", "dns"}
+	kinds := []string{"one", "two", "placeholder", "mixed", "dns", "ipv6"}
 	for mi, m := range modes {
 		for ki, k := range kinds {
 			for v := 0; v < l.Pick(2, 8); v++ {
@@ -112,6 +112,15 @@ func c12One(l *Lab, rep *Report, idp *IdP, c c12Cfg) {
 		hosts = []string{"127.0.0.1:{{ preferred_username }}"}
 	case "mixed":
 		hosts = []string{b1.Addr(), "127.0.0.1:{{ preferred_username }}"}
+	case "ipv6":
+		b6, err := NewBackend("::1")
+		if err != nil {
+			rep.Inconclusive("no ::1 listener")
+			return
+		}
+		defer b6.Close()
+		hosts = []string{b6.Addr(), b1.Addr()}
+		backends[b6.Addr()] = b6
 	case "dns":
 		hosts = []string{fmt.Sprintf("localhost:%d", b1.Port), fmt.Sprintf("Localhost:%d", b2.Port)}
 		backends[hosts[0]] = b1
